@@ -10,7 +10,7 @@
     PARTIAL: clone, serialization, equality, Debug, the shape
     changes of Entry::add/remove and system bodies have no fault model here; they are
     judged by fault injection on the real code (every callback kind, every position). *)
-From Brood Require Import Base World Multi Phys BaseFacts PhysFacts Heap HeapFacts ColsFacts CloneFromM CloneFromFacts.
+From Brood Require Import Base World Multi Phys BaseFacts PhysFacts Heap HeapFacts ColsFacts CloneFromM CloneFromFacts CloneFromW CloneFromWFacts.
 
 (** A panic in any Drop while the world is being dropped: the rest of that column is
     still dropped, later columns are leaked, nothing is dropped twice. *)
@@ -159,3 +159,39 @@ Theorem C17_clone_from_growth_F8c_before_the_repair :
   end.
 Proof. exact wb_unwind_needed. Qed.
 Print Assumptions C17_clone_from_growth_F8c_before_the_repair.
+
+(** [World::clone_from] across archetypes and the allocator: whichever archetype the panic happens in, the
+    world the caller gets back satisfies what [entry], [remove], [clear] and the swap-remove fix-up rely on
+    unchecked — every accepted identifier points at a row holding it, every stored row is known to the
+    allocator — because the old identifiers are forgotten before the archetypes are touched and every
+    archetype is emptied while the panic unwinds (both read off the source).  Finding F11 REPAIRED. *)
+Theorem C17_clone_from_world : forall dst src fault, WInv src -> WInv (pw_clone_from dst src fault).
+Proof. exact clone_from_world_safe_src. Qed.
+Check (C17_clone_from_world : forall dst src fault, WInv src -> WInv (pw_clone_from dst src fault)).
+Print Assumptions C17_clone_from_world.
+
+(** each of the two is needed: with the old allocator kept (before the repair) an accepted identifier
+    points past the end of its archetype; without the emptying on unwind (the first, incomplete repair) a
+    row stays stored under an identifier the allocator does not know *)
+Theorem C17_clone_from_world_F11_before_the_repair :
+  WInv w_dst /\ WInv w_src /\
+  (let w := pw_clone_from_gen false true w_dst w_src (Some 1) in
+   nth_error (pw_slots w) 2 = Some (Some (0, 2)) /\ row_of w 0 2 = None) /\
+  (let w := pw_clone_from_gen true false w_dst w_src (Some 1) in
+   row_of w 0 0 = Some 0 /\ nth_error (pw_slots w) 0 = None).
+Proof. exact (conj w_dst_inv (conj w_src_inv (conj stale_allocator_resolves_nowhere unknown_rows_stay))). Qed.
+Print Assumptions C17_clone_from_world_F11_before_the_repair.
+
+(** [World::remove] under a panicking Drop, at the level of identifiers and rows: the identifier is released
+    before the row is removed (read off the source), so the state the caller gets back is the state after a
+    completed removal; released afterwards (before the repair of F8a), a panic leaves the identifier accepted,
+    pointing at a row that holds another entity. *)
+Theorem C17_remove_index_state : forall w i a r panics, pw_remove w i a r panics = pw_remove w i a r false.
+Proof. exact remove_state_independent_of_panic. Qed.
+Print Assumptions C17_remove_index_state.
+
+Theorem C17_remove_released_last_before_the_repair :
+  let w := pw_remove_gen false w_dst 0 0 0 true in
+  nth_error (pw_slots w) 0 = Some (Some (0, 0)) /\ row_of w 0 0 = Some 2 /\ winv_b w = false.
+Proof. exact remove_released_last_dangles. Qed.
+Print Assumptions C17_remove_released_last_before_the_repair.
